@@ -68,6 +68,7 @@ var c04Sources = []string{
 }
 
 var c04Seq = []string{
+	"Complete()", // not an assignment: the actions after it are applied like the ones before it
 	"F.I = 1", "F.I = F.I2", "F.I2 = F.I", "F.I += F.I2", "F.I8 = F.I", "F.F = F.I / 4", `F.S = F.S + "x"`, "F.S += F.I",
 	"F.Arr[0] = F.Arr[1]", "F.Arr[1] = F.Arr[0]", "F.Arr[F.K] = 5", "F.K = 1", `F.M["a"] = F.M["b"]`, `F.M["b"] = F.I`,
 	"F.P.V = F.I", "F.I = F.P.V", "F.P = F.P.Q", "F.P.V = 3", "J.n = J.o.n", "J.o.n = F.I", "N = N + F.I", "F.I = N",
